@@ -533,6 +533,7 @@ func Run(s Scenario) *Outcome {
 	// outage handling: wait for each fault to fire, issue the outage calls, wait for recovery, arm the next one
 	var callsMu sync.Mutex
 	issue := func(name string) {
+		lastFault := faultIdx >= len(s.Faults) // no further fault will disturb a stream opened now
 		wg.Add(1)
 		go func() {
 			defer wg.Done()
@@ -542,8 +543,17 @@ func Run(s Scenario) *Outcome {
 			switch name {
 			case "open-up":
 				var up *iscp.Upstream
-				up, err = conn.OpenUpstream(ctx, "outage-open", iscp.WithUpstreamQoS(message.QoSReliable))
+				up, err = conn.OpenUpstream(ctx, "outage-open", iscp.WithUpstreamQoS(message.QoSReliable), iscp.WithUpstreamFlushPolicyImmediately())
 				if err == nil {
+					if lastFault {
+						// the stream that was opened across the outage must be usable, not silently closed again
+						time.Sleep(2 * time.Second)
+						wctx, c3 := context.WithTimeout(bg, 5*time.Second)
+						if werr := up.WriteDataPoints(wctx, &message.DataID{Name: "o", Type: "t"}, &message.DataPoint{ElapsedTime: 1, Payload: []byte("o")}); werr != nil && errors.Is(werr, iscperrors.ErrStreamClosed) {
+							err = fmt.Errorf("the upstream opened during the outage closed itself: %v", werr)
+						}
+						c3()
+					}
 					cctx, c2 := context.WithTimeout(bg, callT)
 					up.Close(cctx)
 					c2()
@@ -552,6 +562,14 @@ func Run(s Scenario) *Outcome {
 				var d *iscp.Downstream
 				d, err = conn.OpenDownstream(ctx, []*message.DownstreamFilter{{SourceNodeID: "other", DataFilters: []*message.DataFilter{{Name: "#", Type: "#"}}}})
 				if err == nil {
+					if lastFault {
+						time.Sleep(2 * time.Second)
+						rctx2, c3 := context.WithTimeout(bg, 2*time.Second)
+						if _, rerr := d.ReadDataPoints(rctx2); rerr != nil && errors.Is(rerr, iscperrors.ErrStreamClosed) {
+							err = fmt.Errorf("the downstream opened during the outage closed itself: %v", rerr)
+						}
+						c3()
+					}
 					cctx, c2 := context.WithTimeout(bg, callT)
 					d.Close(cctx)
 					c2()
